@@ -12,7 +12,7 @@ import math
 import re
 import warnings
 
-from harness.common import ImplWorker, Model, Report, rng_for, sx_int, sx_scope, sx_str, unbin, unhex
+from harness.common import ImplWorker, Model, Report, rng_for, sx_int, sx_scope, sx_str, unbin, unhex, depth
 
 warnings.simplefilter("ignore")
 NAMES = ["a", "b", "c"]
@@ -178,7 +178,7 @@ def impl_sym(a: dict) -> dict:
 
 def run(tier: str, seed: int, rep: Report, model: Model) -> dict:
     rnd = rng_for("C18", seed)
-    n = 1500 if tier == "quick" else 20000
+    n = depth(tier, 1500, 20000)
     rep.rule = ("operator trees of depth <= 4 over VariableAxis a,b,c, plain ints, LiteralAxis, + - * // ** (exponent: small literal or variable), "
                 "Min, Max, ISqrt, Group, built by Python's own evaluation of generated source; 3 non-negative scopes each; distinct = distinct "
                 "source; non-trivial = at least two operators")
